@@ -210,6 +210,8 @@ def _determinism_check(case):
         r = run_cli_variant(case, seed, 'td' if k % 2 == 0 else 'src', env_extra, ['asis', 'rev', 'dup'][k % 3], fmt)
         if ref is None:
             ref = r
+            if case.get('expect_ok') and r['rc'] != 0:
+                return f'a case that is meant to assemble was rejected (exit status {r["rc"]}): the case does not test what it is meant to'
         elif r != ref:
             return f'run {k} (hash seed {seed}, format {fmt}) differs from run 0: {r} vs {ref}'
     return None
@@ -434,11 +436,11 @@ def operand_order_cases(rng, n):
         y = ORDER_ISA
         for i, nm in enumerate(ids):
             y = y.replace(f'ID{i + 1}:', nm + ':')
-        stmts = [['other_text', 'ldv 5'], ['other_text', 'ldp [sp]'], ['other_text', 'ldv 300'], ['other_text', 'ldp [sp+2]']]
+        stmts = [['other_text', 'ldv 5'], ['other_text', 'ldp [sp]'], ['other_text', 'ldv 200'], ['other_text', 'ldp [sp+2]']]
         stmts = stmts[:rng.randint(2, 4)]
         out.append({'cfg': {'addr_bits': 16, 'cli': []}, 'isa_yaml': y, 'files': [{'name': 'main.asm', 'dir': 'src', 'stmts': stmts}],
                     'include_dirs': [], 'extra_files': [], 'opts': {'start': 0, 'end': None, 'fill': 0},
-                    'det_seed': rng.randrange(1 << 30), 'det_runs': 8, 'isa': {'macros': {}}})
+                    'det_seed': rng.randrange(1 << 30), 'det_runs': 8, 'isa': {'macros': {}}, 'expect_ok': True})
     return out
 
 
@@ -468,6 +470,10 @@ general:
   endian: big
   registers: [a]
   identifier: {name: verif-implied, version: "1.0.0"}
+operand_sets:
+  unused:
+    operand_values:
+      n: {type: numeric, argument: {size: 8, byte_align: true}}
 instructions:
   inp:
     bytecode: {value: 13, size: 4}
@@ -477,7 +483,7 @@ instructions:
         NAME1:
           list:
             acc: {type: empty, bytecode: {value: 0, size: 4}}
-            port: {type: enumeration, bytecode: {size: 8, value_dict: {timer: 32, uart: 33}}}
+            port: {type: enumeration, bytecode: {size: 4, value_dict: {timer: 2, uart: 3}}, argument: {size: 8, byte_align: true, value_dict: {timer: 32, uart: 33}}}
         NAME2:
           list:
             acc: {type: empty, bytecode: {value: 4, size: 4}}
@@ -503,7 +509,7 @@ def implied_operand_order_cases(rng, n):
         stmts = [['other_text', 'timer = 7'], ['other_text', 'inp timer'], ['other_text', 'nop'], ['other_text', 'inp 9']]
         out.append({'cfg': {'addr_bits': 16, 'cli': []}, 'isa_yaml': y, 'files': [{'name': 'main.asm', 'dir': 'src', 'stmts': stmts}],
                     'include_dirs': [], 'extra_files': [], 'opts': {'start': 0, 'end': None, 'fill': 0},
-                    'det_seed': rng.randrange(1 << 30), 'det_runs': 8, 'isa': {'macros': {}}})
+                    'det_seed': rng.randrange(1 << 30), 'det_runs': 8, 'isa': {'macros': {}}, 'expect_ok': True})
     return out
 
 
